@@ -267,13 +267,15 @@ impl Exp {
                 if exps.is_empty() {
                     return Exp::Max(vec![]);
                 }
+                //simplify every operand once (a second pass over a nested operand
+                //doubles the work at every level of nesting)
+                let simplified = exps.iter().map(|exp| exp.simplify()).collect::<Vec<_>>();
                 //if they are all numbers, return the max
-                let nums = exps
+                let nums = simplified
                     .iter()
                     .map(|exp| {
-                        let exp = exp.simplify();
                         if let Exp::Number(value) = exp {
-                            Some(value)
+                            Some(*value)
                         } else {
                             None
                         }
@@ -283,20 +285,20 @@ impl Exp {
                     Some(nums) => {
                         Exp::Number(nums.iter().cloned().fold(f64::NEG_INFINITY, f64::max))
                     }
-                    None => Exp::Max(exps.iter().map(|exp| exp.simplify()).collect::<Vec<_>>()),
+                    None => Exp::Max(simplified),
                 }
             }
             Exp::Min(exps) => {
                 if exps.is_empty() {
                     return Exp::Min(vec![]);
                 }
+                let simplified = exps.iter().map(|exp| exp.simplify()).collect::<Vec<_>>();
                 //if they are all numbers, return the min
-                let nums = exps
+                let nums = simplified
                     .iter()
                     .map(|exp| {
-                        let exp = exp.simplify();
                         if let Exp::Number(value) = exp {
-                            Some(value)
+                            Some(*value)
                         } else {
                             None
                         }
@@ -304,7 +306,7 @@ impl Exp {
                     .collect::<Option<Vec<f64>>>();
                 match nums {
                     Some(nums) => Exp::Number(nums.iter().cloned().fold(f64::INFINITY, f64::min)),
-                    None => Exp::Min(exps.iter().map(|exp| exp.simplify()).collect::<Vec<_>>()),
+                    None => Exp::Min(simplified),
                 }
             }
             exp => exp.clone(),
